@@ -41,7 +41,24 @@ func (c *ConcCase) Weight() int { return len(c.Prefix) }
 // ConcurrentSub builds the sub-check. calls must be deterministic in content for a given tier;
 // pairs selects the ordered pairs to explore (nil = all).
 func ConcurrentSub(name, what string, calls func(tier string) []Call, pairs func(tier string, n int) [][2]int, qBound, tBound int) *Sub {
-	return ConcurrentSubSweep(name, what, calls, pairs, nil, qBound, tBound)
+	return ConcurrentSubSweep(name, what, calls, pairs, DefaultProbes, qBound, tBound)
+}
+
+// DefaultProbes selects at most 24 (quick) / 96 (thorough) evenly spaced calls as SWEEP probes.
+func DefaultProbes(tier string, n int) []int {
+	max := 24
+	if tier == "thorough" {
+		max = 96
+	}
+	step := (n + max - 1) / max
+	if step < 1 {
+		step = 1
+	}
+	var r []int
+	for i := 0; i < n; i += step {
+		r = append(r, i)
+	}
+	return r
 }
 
 // ConcurrentSubSweep additionally runs selected calls (probes) against a SWEEP thread that performs
